@@ -208,7 +208,7 @@ Definition normalize_hostname (e : env) (amp : bool) (h : str) : res str :=
 
 Definition get_normalized_hostname (e : env) (url : str) (amp infer : bool) : res (option str) :=
   let* url := if infer then infer_redirection e url else Ok url in
-  match urlsplit e (ensure_protocol (strip url) (lit "http")) with
+  match urlsplit e (ensure_protocol (strip (strip_controls url)) (lit "http")) with
   | Exc ValueError => Ok None
   | Exc x => Exc x
   | Ok sp => match hostname sp with
@@ -284,7 +284,7 @@ Definition fingerprint_hostname (e : env) (t : snode) (strip_suffix : bool) (h :
 Definition get_fingerprinted_hostname (e : env) (t : snode) (url : str) (infer strip_suffix : bool) : res (option str) :=
   let url := lower url in
   let* url := if infer then infer_redirection e url else Ok url in
-  match urlsplit e (ensure_protocol (strip url) (lit "http")) with
+  match urlsplit e (ensure_protocol (strip (strip_controls url)) (lit "http")) with
   | Exc ValueError => Ok None
   | Exc x => Exc x
   | Ok sp => match hostname sp with
